@@ -237,6 +237,8 @@ fn execute(prog: Program) -> Outcome {
     out.setup = Ok(());
     // every (kind, role) that touched each key (for the violation shape)
     let mut last: BTreeMap<String, Vec<(String, String)>> = BTreeMap::new();
+    // which nodes' clients touched each key
+    let mut origin_nodes: BTreeMap<String, std::collections::BTreeSet<usize>> = BTreeMap::new();
     let conc_handle = if !prog.concurrent_on_primary.is_empty() {
         let d0 = dbs[0].clone();
         let ops = prog.concurrent_on_primary.clone();
@@ -253,6 +255,7 @@ fn execute(prog: Program) -> Outcome {
     };
     for op in prog.concurrent_on_primary.iter() {
         last.entry(op.key()).or_default().push((op.kind().to_string(), "primary".to_string()));
+        origin_nodes.entry(op.key()).or_default().insert(0);
     }
     for (node, op) in prog.ops.iter() {
         let node = (*node).min(prog.nodes - 1);
@@ -273,6 +276,7 @@ fn execute(prog: Program) -> Outcome {
         let role = if node == 0 { "primary" } else { "secondary" };
         if !r.resp.is_err() || matches!(op, Op::SetSafe { .. }) {
             last.entry(op.key()).or_default().push((op.kind().to_string(), role.to_string()));
+            origin_nodes.entry(op.key()).or_default().insert(node);
             if let Op::CreateDb { name, .. } = op {
                 last.entry(format!("db:{}", name)).or_default().push(("create-db".into(), role.into()));
             }
@@ -319,7 +323,15 @@ fn execute(prog: Program) -> Outcome {
             let snapshot_before_remove = field == "version"
                 && prog.ops.iter().any(|(_, o)| matches!(o, Op::Snapshot { .. }))
                 && (prog.ops.iter().map(|(_, o)| o).chain(prog.concurrent_on_primary.iter())).any(|o| matches!(o, Op::Remove { key: k } if *k == key));
-            let shape = if snapshot_before_remove {
+            // operations on one key issued on different nodes without waiting for quiescence in between:
+            // nothing orders them, every node applies its own client's operation first
+            let cross_node_race = !prog.settle_each && origin_nodes.get(&key).map(|s| s.len() > 1).unwrap_or(false);
+            let shape = if cross_node_race && !snapshot_before_remove {
+                let mut all: Vec<String> = sec.iter().chain(pri.iter()).cloned().collect();
+                all.sort();
+                all.dedup();
+                format!("cross-node-race:{}:{}", mode, all.join("+"))
+            } else if snapshot_before_remove {
                 let mut all: Vec<String> = sec.iter().chain(pri.iter()).cloned().collect();
                 all.sort();
                 all.dedup();
@@ -332,6 +344,11 @@ fn execute(prog: Program) -> Outcome {
                 }
             } else if set_like(&sec) {
                 format!("secondary-origin:writes-incl-set:{}:{}", mode, sec.join("+"))
+            } else if sec.iter().any(|k| k == "remove") && sec.len() > 1 && !prog.settle_each {
+                // a remove issued on a secondary is applied there at once and forwarded, an increment is
+                // only forwarded and comes back later: issued back to back they apply in different orders
+                // on the origin and on the primary (same family as the set-on-a-secondary finding)
+                format!("secondary-origin:local-remove-vs-forwarded:{}:{}", mode, sec.join("+"))
             } else {
                 format!("secondary-origin:{}:{}", mode, sec.join("+"))
             };
